@@ -1,4 +1,49 @@
+/-
+C07 — Commits sent through packfiles are reproduced exactly at the destination.
+Property theorems only. Model: Model/Transfer.lean (ObjectSender's object order and packfile cut,
+ObjectReceiver's acceptance conditions) at the level of object identities; byte identity and the
+re-built indices/profiles are compared on the implementation (and checked with C03's `tableInv`).
+-/
 import WrglModel.Model.Transfer
+import WrglModel.Lemmas.C07
 namespace Wrgl
-theorem C07_placeholder : True := trivial
+
+/-- For every size limit (from 1 byte up), cutting the object sequence into packfiles loses,
+    duplicates and reorders nothing; every packfile is non-empty, so the exchange terminates. -/
+theorem C07_packfiles_exact (maxSize : Nat) (size : ObjKey → Nat) (objs : List ObjKey) :
+    (packfiles maxSize size (objs.length + 1) objs).flatten = objs ∧
+    (∀ p ∈ packfiles maxSize size (objs.length + 1) objs, p ≠ []) ∧
+    (packfiles maxSize size (objs.length + 1) objs).length ≤ objs.length :=
+  ⟨packfiles_flatten maxSize size objs, (packfiles_nonempty maxSize size objs).1, (packfiles_nonempty maxSize size objs).2⟩
+
+/-- Objects arrive in an order the receiver accepts: commit objects follow the given list, a
+    table's new blocks precede it, no block or table is sent twice. -/
+theorem C07_sender_order (s : SrcRepo) (tts : List Nat) (st : SenderSt) (toSend : List Nat) (objs : List ObjKey)
+    (h : senderObjs s tts st toSend = .ok objs) :
+    (objs.filterMap (fun o => match o with
+      | .com c => some c
+      | _ => none)) = toSend ∧
+    (objs.filter (fun o => match o with
+      | .com _ => false
+      | _ => true)).Nodup ∧
+    (∀ (i : Nat) (t : Nat), objs[i]? = some (.tbl t) →
+      ∀ ti, s.table? t = some ti → ∀ b ∈ ti.blocks, st.commonBlocks.contains b = true ∨ .blk b ∈ objs.take i) :=
+  sender_order s tts st toSend objs h
+
+/-- For any set of commits (listed parent-first relative to the destination, repeats allowed), any
+    subset of tables and blocks already present at the destination and any selection of tables to
+    send: every object is accepted and the destination ends up holding exactly what it held plus
+    the sent objects. -/
+theorem C07_transfer_exact (s : SrcRepo) (d : DstRepo) (common toSend tts : List Nat) (st : SenderSt) (objs : List ObjKey)
+    (hok : TransferOK s d common toSend)
+    (hi : senderInit s common = .ok st) (ho : senderObjs s tts st toSend = .ok objs) :
+    ∃ d', receiveAll s d objs = .ok d' ∧ (∀ k, d'.has k = true ↔ d.has k = true ∨ k ∈ objs) :=
+  transfer_exact s d common toSend tts st objs hok hi ho
+
+/-- A commit is never accepted while a parent is missing. -/
+theorem C07_no_orphan_commit (s : SrcRepo) (d : DstRepo) (c : Nat) (cm : Commit) (p : Nat)
+    (hc : s.commits.get? c = some cm) (hp : p ∈ cm.parents) (hmiss : (d.commits.get? p).isSome = false) :
+    receiveObj s d (.com c) = .err "parent-missing" :=
+  no_orphan_commit s d c cm p hc hp hmiss
+
 end Wrgl
